@@ -4,14 +4,16 @@
 
   * `causes.detect_changing_cause` (the part decided by old/new/diff; deletion and resuming are other
     properties' subject): `old is None` → CREATE, `not diff` → NOOP, else UPDATE;
-  * `processing.process_changing_cause`, after the handlers are done (or none matched):
-      `if cause.new is not None and cause.old != cause.new: diffbase_storage.store(essence=cause.new)`
-    — NB: Python's `!=`, not `diffs._same` (kopf 6b2e53c repaired `diff_iter` only);
-  * `registries._matches_field_changes` for `@on.update(field=…)` / `@on.field` (`field_needs_change`):
-      `old = resolve(cause.old, field, absent); new = resolve(cause.new, field, absent); old != new`
-    — again Python's `!=`.
+  * `processing.process_changing_cause`, after the handlers are done (or none matched), since kopf 8d1358b:
+      `if cause.new is not None and (cause.old != cause.new or cause.diff): diffbase_storage.store(essence=cause.new)`
+    — Python's `!=` OR a non-empty diff (the diff tells booleans from numbers: `diffs._same`, kopf 6b2e53c);
+  * `registries._matches_field_changes` for `@on.update(field=…)` / `@on.field` (`field_needs_change`), since 8d1358b:
+      `old = resolve(cause.old, field, absent); new = resolve(cause.new, field, absent)`
+      `changed = (old is not new) if (old is absent or new is absent) else bool(diffs.diff(old, new)) or old != new`.
 
   `pyEq` is Python's `==` on parsed JSON (ints, no floats): as `same`, but `True == 1`, `False == 0`.
+  The variants before 8d1358b (Python's `!=` alone: finding C04-F12) are kept as `storeGuardPy` /
+  `afterCyclePy` / `fieldChangedPy` for the regression theorems.
 -/
 import Kopf.Base.J
 import Kopf.Model.C04_Diff
@@ -52,8 +54,14 @@ def detect (old : Option J) (new : J) : Reason :=
   | none => .create
   | some o => if (diff o new []).isEmpty then .noop else .update
 
-/-- `cause.new is not None and cause.old != cause.new` (`None != {...}` is true). -/
+/-- `cause.new is not None and (cause.old != cause.new or cause.diff)` (`None != {...}` is true). -/
 def storeGuard (old : Option J) (new : J) : Bool :=
+  match old with
+  | none => true
+  | some o => !pyEq o new || !(diff o new []).isEmpty
+
+/-- the guard before kopf 8d1358b: `cause.new is not None and cause.old != cause.new`. -/
+def storeGuardPy (old : Option J) (new : J) : Bool :=
   match old with
   | none => true
   | some o => !pyEq o new
@@ -65,9 +73,22 @@ def afterCycle (old : Option J) (new : J) : Option J :=
   | .noop => old
   | _ => if storeGuard old new then some new else old
 
+/-- `afterCycle` with the guard before kopf 8d1358b. -/
+def afterCyclePy (old : Option J) (new : J) : Option J :=
+  match detect old new with
+  | .noop => old
+  | _ => if storeGuardPy old new then some new else old
+
 /-- `_matches_field_changes` (`field_needs_change`): the values at the field, resolved with an `absent`
-    token, differ by Python's `!=`. -/
+    token: one side absent → changed iff not both; else `bool(diffs.diff(old, new)) or old != new`. -/
 def fieldChanged (old new : J) (f : Path) : Bool :=
+  match resolve? old f, resolve? new f with
+  | none, none => false
+  | some x, some y => !(diff x y []).isEmpty || !pyEq x y
+  | _, _ => true
+
+/-- the selection before kopf 8d1358b: Python's `old != new` alone. -/
+def fieldChangedPy (old new : J) (f : Path) : Bool :=
   match resolve? old f, resolve? new f with
   | none, none => false
   | some x, some y => !pyEq x y
@@ -76,20 +97,5 @@ def fieldChanged (old new : J) (f : Path) : Bool :=
 /-- is an `@on.update(field=f)` / `@on.field(field=f)` handler called in the cycle of an existing object? -/
 def selected (old new : J) (f : Path) : Bool :=
   (detect (some old) new == .update) && fieldChanged old new f
-
-mutual
-  /-- no boolean anywhere in the value (the guard under which Python's `==` is JSON equality). -/
-  def noBool : J → Bool
-    | .bool _ => false
-    | .arr xs => noBoolList xs
-    | .obj kvs => noBoolKvs kvs
-    | _ => true
-  def noBoolList : List J → Bool
-    | [] => true
-    | x :: xs => noBool x && noBoolList xs
-  def noBoolKvs : List (String × J) → Bool
-    | [] => true
-    | (_, x) :: rest => noBool x && noBoolKvs rest
-end
 
 end Kopf.C04
